@@ -20,6 +20,8 @@ mod dfa_util;
 mod export;
 #[cfg(logos_verif)]
 mod verif;
+#[cfg(logos_verif)]
+pub(crate) use verif::edge_impl as verif_edge_impl;
 
 /// A configuration used to construct a graph
 #[derive(Debug)]
